@@ -195,8 +195,15 @@ def gen_case(rng, index, tier):
             text_date = rng.choice(['2020-1-1T0:0:0', ' 2020-01-01T00:00:00',
                                     '2020-01-01T00:00:00 '])
         specs.append((kind, text_date))
+    hostile_perms = rng.random() < 0.08
+    kinds = None
+    if hostile_perms:
+        # payloads that cannot be removed without a chmod (the run is made
+        # with the capabilities that let root ignore mode bits dropped)
+        kinds = trashgen.PAYLOAD_KINDS + ['tree_locked', 'tree_readonly'] * 3
     L, trashes, entries = trashworld.make(
-        rng, index, n_entries=n, dates=['2000-01-01T00:00:00'], tz=tz)
+        rng, index, n_entries=n, dates=['2000-01-01T00:00:00'], tz=tz,
+        kinds=kinds)
     # rewrite the info files according to specs
     for e, (kind, td) in zip(entries, specs):
         pv = trashgen.path_value(e['loc'], e['volume'], e['home'])
@@ -241,6 +248,8 @@ def gen_case(rng, index, tier):
     case['trashes'] = [t['rel'] for t in trashes]
     case['extras'] = extras
     case['tz'] = tz
+    if hostile_perms:
+        case['drop_caps'] = True
     case['verbose'] = rng.random() < 0.2
     return case
 
@@ -301,6 +310,18 @@ def run_case(case):
             if e['dkind'] == 'boundary':
                 obs['boundary_entries'] = obs.get('boundary_entries', 0) + 1
                 near = True
+            if e['kind'] in ('tree_locked', 'tree_readonly') and case.get('drop_caps') \
+                    and exp is not False and st != 'gone':
+                # the payload cannot be removed (permissions): what is left of
+                # it must keep its .trashinfo (still listed, still restorable)
+                # and the failure must be reported
+                obs['unremovable_payloads'] = obs.get('unremovable_payloads', 0) + 1
+                ik, pk = trashworld.pair_keys(e)
+                if ik not in s1 or s1[ik] != s0[ik]:
+                    viol(out, 'unremovable-payload-lost-its-info/%s' % e['kind'], r, e, case)
+                elif exp is True and 'cannot remove' not in r.errtext():
+                    viol(out, 'unremovable-payload-not-reported/%s' % e['kind'], r, e, case)
+                continue
             if exp is None:
                 obs['not_judged'] = obs.get('not_judged', 0) + 1
                 if st not in ('intact', 'gone'):
@@ -323,9 +344,15 @@ def run_case(case):
         if days is None:
             obs['no_days_runs'] = 1
             # nothing may remain: no info, no payload
+            unrem = set()
+            if case.get('drop_caps'):
+                for e in case['entries']:
+                    if e['kind'] in ('tree_locked', 'tree_readonly'):
+                        unrem.update(trashworld.pair_keys(e))
             left = [k for k in s1 if (putcheck.is_payload_root(k) or
                                       putcheck.is_info(k)) and
-                    any(k.startswith(t + '/') for t in case['trashes'])]
+                    any(k.startswith(t + '/') for t in case['trashes'])
+                    and k not in unrem]
             if left:
                 out['violations'].append({
                     'mechanism': 'empty-without-days-left-something',
